@@ -817,8 +817,126 @@ func vfC12Marshal(info TypeInfo, val reflect.Value) (res vfC12Obj, data []byte) 
 	return vfC12Obj{"st": "ok", "b": vfC12Ints(b)}, b
 }
 
-// vfC12Unmarshal decodes data (nil = CQL null) into a fresh target of kind k and dumps it.
-func vfC12Unmarshal(info TypeInfo, t *vfC12Type, k *vfC12Kind, data []byte) (res vfC12Obj) {
+// ---------------------------------------------------------------- decode destinations
+//
+// "decodes to an equal value" must hold whatever the destination held before (the usual
+// `for iter.Scan(&m)` loop reuses one variable).  Every decode is therefore run three times:
+//   fresh   a zero value of the target type
+//   dirty   a destination pre-filled by reflection with junk of the same type: non-zero scalars,
+//           non-nil pointers, 3-element slices, 2-entry maps, filled struct fields / array elements
+//   reuse   one long-lived destination per (type, protocol, target kind) that every case of
+//           the run decodes into, one after the other
+// The expected value is the same in all three (it comes from the specification and does not
+// depend on the destination); the harness only reports the dirty / reuse result when it is not
+// identical to the fresh one, and the check judges it like any other decode.
+
+type vfC12Dest struct {
+	k    *vfC12Kind
+	ptr  reflect.Value // pointer to the destination (all kinds but ifaces)
+	ptrs []interface{} // ifaces: the []interface{} of pointers handed to Unmarshal
+}
+
+func vfC12NewDest(k *vfC12Kind) (*vfC12Dest, error) {
+	d := &vfC12Dest{k: k}
+	if k.G == "ifaces" {
+		d.ptrs = make([]interface{}, len(k.Es))
+		for i := range k.Es {
+			et, err := vfC12GoType(&k.Es[i])
+			if err != nil {
+				return nil, err
+			}
+			d.ptrs[i] = reflect.New(et).Interface()
+		}
+		return d, nil
+	}
+	typ, err := vfC12GoType(k)
+	if err != nil {
+		return nil, err
+	}
+	d.ptr = reflect.New(typ)
+	return d, nil
+}
+
+// vfC12Junk overwrites v with a non-zero value of its type (different for different salts).
+func vfC12Junk(v reflect.Value, salt int, depth int) {
+	if !v.CanSet() || depth > 6 {
+		return
+	}
+	switch v.Type() {
+	case vfC12TBig:
+		v.Set(reflect.ValueOf(*big.NewInt(int64(5921370 + salt))))
+		return
+	case vfC12TTime:
+		v.Set(reflect.ValueOf(time.Unix(int64(1234567+salt), 0).UTC()))
+		return
+	case vfC12TDec:
+		v.Set(reflect.ValueOf(*inf.NewDec(int64(777+salt), 3)))
+		return
+	case vfC12TDur:
+		v.Set(reflect.ValueOf(Duration{Months: 7, Days: 8, Nanoseconds: int64(9 + salt)}))
+		return
+	case vfC12TIP:
+		v.Set(reflect.ValueOf(net.IP{9, 9, 9, byte(salt)}))
+		return
+	}
+	switch v.Kind() {
+	case reflect.Ptr:
+		p := reflect.New(v.Type().Elem())
+		vfC12Junk(p.Elem(), salt, depth+1)
+		v.Set(p)
+	case reflect.Interface:
+		if v.NumMethod() == 0 {
+			v.Set(reflect.ValueOf("junk" + strconv.Itoa(salt)))
+		}
+	case reflect.Int, reflect.Int8, reflect.Int16, reflect.Int32, reflect.Int64:
+		v.SetInt(int64(85 + salt%40))
+	case reflect.Uint, reflect.Uint8, reflect.Uint16, reflect.Uint32, reflect.Uint64:
+		v.SetUint(uint64(85 + salt%40))
+	case reflect.Bool:
+		v.SetBool(salt%2 == 0)
+	case reflect.Float32, reflect.Float64:
+		v.SetFloat(1.5 + float64(salt))
+	case reflect.String:
+		v.SetString("junk" + strconv.Itoa(salt))
+	case reflect.Slice:
+		s := reflect.MakeSlice(v.Type(), 3, 3)
+		for i := 0; i < 3; i++ {
+			vfC12Junk(s.Index(i), salt+i, depth+1)
+		}
+		v.Set(s)
+	case reflect.Array:
+		for i := 0; i < v.Len(); i++ {
+			vfC12Junk(v.Index(i), salt+i, depth+1)
+		}
+	case reflect.Map:
+		m := reflect.MakeMap(v.Type())
+		for i := 0; i < 2; i++ {
+			key := reflect.New(v.Type().Key()).Elem()
+			val := reflect.New(v.Type().Elem()).Elem()
+			vfC12Junk(key, salt+i, depth+1)
+			vfC12Junk(val, salt+i, depth+1)
+			m.SetMapIndex(key, val)
+		}
+		v.Set(m)
+	case reflect.Struct:
+		for i := 0; i < v.NumField(); i++ {
+			vfC12Junk(v.Field(i), salt+i, depth+1)
+		}
+	}
+}
+
+func (d *vfC12Dest) fill(salt int) {
+	if d.k.G == "ifaces" {
+		for i := range d.ptrs {
+			vfC12Junk(reflect.ValueOf(d.ptrs[i]).Elem(), salt+i, 0)
+		}
+		return
+	}
+	vfC12Junk(d.ptr.Elem(), salt, 0)
+}
+
+// decode runs Unmarshal(data) (nil = CQL null) into the destination and dumps what it holds afterwards.
+func (d *vfC12Dest) decode(info TypeInfo, t *vfC12Type, data []byte) (res vfC12Obj) {
 	defer func() {
 		if r := recover(); r != nil {
 			res = vfC12Obj{"st": "panic", "err": fmt.Sprint(r), "gv": vfC12Obj{"k": "null"}}
@@ -829,33 +947,74 @@ func vfC12Unmarshal(info TypeInfo, t *vfC12Type, k *vfC12Kind, data []byte) (res
 		in = make([]byte, len(data), len(data)+1) // private copy: decoders must not alias across targets
 		copy(in, data)
 	}
-	if k.G == "ifaces" {
-		ptrs := make([]interface{}, len(k.Es))
-		for i := range k.Es {
-			et, err := vfC12GoType(&k.Es[i])
-			if err != nil {
-				return vfC12Obj{"st": "harness", "err": err.Error(), "gv": vfC12Obj{"k": "null"}}
-			}
-			ptrs[i] = reflect.New(et).Interface()
-		}
-		if err := Unmarshal(info, in, ptrs); err != nil {
+	if d.k.G == "ifaces" {
+		if err := Unmarshal(info, in, d.ptrs); err != nil {
 			return vfC12Obj{"st": "err", "err": err.Error(), "gv": vfC12Obj{"k": "null"}}
 		}
-		es := make([]interface{}, len(ptrs))
-		for i := range ptrs {
-			es[i] = vfC12Dump(reflect.ValueOf(ptrs[i]).Elem(), vfC12ElemType(t, i))
+		es := make([]interface{}, len(d.ptrs))
+		for i := range d.ptrs {
+			es[i] = vfC12Dump(reflect.ValueOf(d.ptrs[i]).Elem(), vfC12ElemType(t, i))
 		}
 		return vfC12Obj{"st": "ok", "gv": vfC12Obj{"k": "tuple", "es": es}}
 	}
-	typ, err := vfC12GoType(k)
+	if err := Unmarshal(info, in, d.ptr.Interface()); err != nil {
+		return vfC12Obj{"st": "err", "err": err.Error(), "gv": vfC12Obj{"k": "null"}}
+	}
+	return vfC12Obj{"st": "ok", "gv": vfC12Dump(d.ptr.Elem(), t)}
+}
+
+// vfC12Unmarshal decodes data (nil = CQL null) into a fresh target of kind k and dumps it.
+func vfC12Unmarshal(info TypeInfo, t *vfC12Type, k *vfC12Kind, data []byte) vfC12Obj {
+	d, err := vfC12NewDest(k)
 	if err != nil {
 		return vfC12Obj{"st": "harness", "err": err.Error(), "gv": vfC12Obj{"k": "null"}}
 	}
-	p := reflect.New(typ)
-	if err := Unmarshal(info, in, p.Interface()); err != nil {
-		return vfC12Obj{"st": "err", "err": err.Error(), "gv": vfC12Obj{"k": "null"}}
+	return d.decode(info, t, data)
+}
+
+var vfC12Reused = map[string]*vfC12Dest{}
+var vfC12Salt int
+
+func vfC12Same(a, b vfC12Obj) bool {
+	if a["st"] != b["st"] {
+		return false
 	}
-	return vfC12Obj{"st": "ok", "gv": vfC12Dump(p.Elem(), t)}
+	if a["st"] != "ok" {
+		return true
+	}
+	x, _ := json.Marshal(a["gv"])
+	y, _ := json.Marshal(b["gv"])
+	return string(x) == string(y)
+}
+
+// vfC12UnmarshalAll: fresh decode plus the dirty / reuse decodes; the latter two are returned only
+// when they differ from the fresh result (nil otherwise).  stream separates the reuse destinations
+// of independent byte streams ("spec", "real", "vec").
+func vfC12UnmarshalAll(info TypeInfo, t *vfC12Type, proto int, k *vfC12Kind, data []byte, stream string) (fresh, dirty, reuse vfC12Obj) {
+	fresh = vfC12Unmarshal(info, t, k, data)
+	if fresh["st"] == "harness" {
+		return fresh, nil, nil
+	}
+	vfC12Salt = (vfC12Salt + 1) % 7
+	if d, err := vfC12NewDest(k); err == nil {
+		d.fill(vfC12Salt)
+		if r := d.decode(info, t, data); !vfC12Same(fresh, r) {
+			dirty = r
+		}
+	}
+	kt, _ := json.Marshal([]interface{}{stream, vfC12TypeObj(t), proto, vfC12KindObj(k)})
+	d := vfC12Reused[string(kt)]
+	if d == nil {
+		var err error
+		if d, err = vfC12NewDest(k); err != nil {
+			return fresh, dirty, nil
+		}
+		vfC12Reused[string(kt)] = d
+	}
+	if r := d.decode(info, t, data); !vfC12Same(fresh, r) {
+		reuse = r
+	}
+	return fresh, dirty, reuse
 }
 
 func vfC12RunCase(c *vfC12Case) vfC12Obj {
@@ -888,11 +1047,21 @@ func vfC12RunCase(c *vfC12Case) vfC12Obj {
 	for i := range c.Targets {
 		k := &c.Targets[i].K
 		d := vfC12Obj{"i": i}
+		put := func(which string, data []byte) {
+			f, dirty, reuse := vfC12UnmarshalAll(info, &c.T, c.P, k, data, which)
+			d[which] = f
+			if dirty != nil {
+				d[which+"_dirty"] = dirty
+			}
+			if reuse != nil {
+				d[which+"_reuse"] = reuse
+			}
+		}
 		if c.Spec.St == "ok" || c.Spec.St == "null" {
-			d["spec"] = vfC12Unmarshal(info, &c.T, k, specData) // Unmarshal(Enc(v)), the specification's bytes
+			put("spec", specData) // Unmarshal(Enc(v)), the specification's bytes
 		}
 		if res["st"] == "ok" || res["st"] == "null" {
-			d["real"] = vfC12Unmarshal(info, &c.T, k, data) // Unmarshal(Marshal(v)), the driver's own bytes
+			put("real", data) // Unmarshal(Marshal(v)), the driver's own bytes
 		}
 		decs = append(decs, d)
 	}
@@ -1364,9 +1533,21 @@ func vfC12Vector(n int, ct *vfC12Type, ck *vfC12Kind, cv *vfC12Val, proto int, t
 	decs := []interface{}{}
 	if res["st"] == "ok" || res["st"] == "null" {
 		for i := range targets {
-			d := vfC12Unmarshal(info, ct, &targets[i], data)
+			d, dirty, reuse := vfC12UnmarshalAll(info, ct, proto, &targets[i], data, "vec")
 			d["K"] = vfC12KindObj(&targets[i])
+			d["mode"] = "fresh"
 			decs = append(decs, d)
+			for _, mode := range []string{"dirty", "reuse"} {
+				x := dirty
+				if mode == "reuse" {
+					x = reuse
+				}
+				if x != nil { // same bytes into a pre-filled / long-lived destination gave something else
+					x["K"] = vfC12KindObj(&targets[i])
+					x["mode"] = mode
+					decs = append(decs, x)
+				}
+			}
 		}
 	}
 	rec["decs"] = decs
